@@ -135,6 +135,63 @@ def _bundled(_):
     return n, bad
 
 
+def _invariance(seed):
+    """The theorems TranslInv / ScaleInv of ConeTable on the code, for cones whose rows are NOT exactly representable (unit-normalised):
+    on a dyadic lattice the difference a - b is exact, so dominates(a, b), dominates(a + t, b + t) for dyadic t, is_inside(a - b),
+    and the batched call must agree bit for bit - including pairs whose difference lies exactly on a facet."""
+    import itertools
+    import numpy as np
+    from vopy.order import ConeOrder3D, ConeOrder3DIceCream, ConeTheta2DOrder, PolyhedralConeOrder
+    from vopy.ordering_cone import OrderingCone
+    rs = np.random.RandomState(seed)
+    bad = []
+    n = 0
+    orders = [("acute3d", ConeOrder3D("acute"), [[1, -2, 4], [4, 1, -2], [-2, 4, 1]]), ("obtuse3d", ConeOrder3D("obtuse"), [[5, 2, 8], [8, 5, 2], [2, 8, 5]]),
+              ("theta60", ConeTheta2DOrder(60), None), ("theta135", ConeTheta2DOrder(135), None), ("ice45-6", ConeOrder3DIceCream(45, 6), None)]
+    for Wi in ([[3, -1], [-1, 2]], [[3, 5], [5, 3]], [[1, 3, -1], [-1, 2, 3], [5, -1, 1]]):
+        Wn = np.array(Wi, dtype=float)
+        Wn = Wn / np.linalg.norm(Wn, axis=1, keepdims=True)
+        orders.append(("int%d" % len(Wi[0]), PolyhedralConeOrder(OrderingCone(Wn)), Wi))
+    for name, order, Wint in orders:
+        d = order.ordering_cone.W.shape[1]
+        lat = [np.array(v, dtype=float) / 4.0 for v in itertools.product(range(-4, 5), repeat=d)]
+        diffs = [lat[i] for i in rs.choice(len(lat), size=min(len(lat), 120), replace=False)]
+        if Wint is not None:      # make sure exact-boundary differences are present
+            bd = [v for v in lat if any(sum(w[k] * v[k] for k in range(d)) == 0 for w in Wint) and np.any(v != 0)]
+            diffs += [bd[i] for i in rs.choice(len(bd), size=min(len(bd), 120), replace=False)]
+        bases = [np.zeros(d), np.array([0.625, -3.875, -0.5][:d]), np.array([1024.5, -7.25, 3.0][:d]), -np.array([0.375, 2.125, 40.5][:d])]
+        A = []
+        B = []
+        single = []
+        onbd = []
+        for dv in diffs:
+            r0 = bool(np.all(order.ordering_cone.is_inside(dv)))
+            for b in bases:
+                a = b + dv                      # exact: dyadic numbers of moderate size
+                r = bool(np.all(order.dominates(a, b)))
+                n += 1
+                if r != r0:
+                    bad.append({"kind": "translation-invariance", "cone": name, "a": a.tolist(), "b": b.tolist(), "difference": dv.tolist(),
+                                "dominates(a,b)": r, "is_inside(a-b) == dominates(diff, 0)": r0})
+                A.append(a)
+                B.append(b)
+                single.append(r)
+                # a difference exactly on a facet of a cone with non-representable rows is decided by the rounding of W.x, and a
+                # batched product rounds differently from a single one: such pairs are not compared across call forms
+                onbd.append(bool(np.min(np.abs(order.ordering_cone.W @ dv)) < 1e-9))
+            if not bool(np.all(order.dominates(dv, dv))):
+                bad.append({"kind": "reflexive", "cone": name, "a": dv.tolist()})
+        try:
+            batched = [bool(x) for x in np.asarray(order.dominates(np.array(A), np.array(B))).reshape(-1)]
+            diff_idx = [i for i in range(len(single)) if batched[i] != single[i] and not onbd[i]]
+            if diff_idx:
+                k = diff_idx[0]
+                bad.append({"kind": "batched-vs-single", "cone": name, "a": A[k].tolist(), "b": B[k].tolist(), "single": single[k], "batched": batched[k]})
+        except Exception as e:
+            bad.append({"kind": "batched-exception", "cone": name, "error": repr(e)[:200]})
+    return n, bad[:40]
+
+
 def _replay_theta(rows):
     import numpy as np
     from vopy.order import ConeTheta2DOrder
@@ -174,6 +231,9 @@ def run(ctx):
     bad += [b for bs in pmap(_replay_theta, chunks(trow, 8)) for b in bs]
     nb, badb = _bundled(0)
     bad += badb
+    ni, badi = _invariance(ctx.seed)
+    bad += badi
+    nb += ni
     for b in bad:
         ctx.violation("cone-%s" % b["kind"], b, "cone geometry mismatch: %s" % str(b)[:400])
     ctx.traces = len(rows) + len(trow)
@@ -204,5 +264,7 @@ def replay(body):
             if all(w[0] * v[0] + w[1] * v[1] >= 0 for w in c["W"]):
                 inside.add(v)
         return not _replay_order([(c["W"], inside, G)])
+    if c["kind"] in ("translation-invariance", "batched-vs-single", "reflexive", "batched-exception"):
+        return not _invariance(0)[1]
     n, bad = _bundled(0)
     return not bad
